@@ -100,7 +100,11 @@ func posDeletionRequired(d *DeclSpec, p *Plan) bool {
 		return false
 	}
 	if k > 0 {
-		return rest != nil && rest.Required != "" && k-1 < 1
+		if rest == nil {
+			return false
+		}
+		lo, _ := restBounds(rest.Required)
+		return k-1 < lo
 	}
 	if len(scalars) == 0 {
 		return false
@@ -136,7 +140,7 @@ func genArgFault(r *Rng, d *DeclSpec, p *Plan, twinCalls []Call) (f ArgFault, ok
 			f.Text = r.Pick([]string{"--nosuchopt", "--nosuchopt=1", "--zz-top", "--forec"})
 			f.Expect = "unknown flag"
 		case "unknown-short":
-			f.Text = r.Pick([]string{"-?", "-!", "-0", "-@x"})
+			f.Text = r.Pick([]string{"-?", "-!", "-%", "-@x"}) // (nothing that could be read as a negative number)
 			f.Expect = "unknown flag"
 		case "help":
 			if d.Options&optHelpFlag == 0 {
@@ -402,6 +406,9 @@ func genArgFault(r *Rng, d *DeclSpec, p *Plan, twinCalls []Call) (f ArgFault, ok
 		f.Callee = &CalleeFault{Kind: k, Nth: r.Intn(counts[k]), ID: 100 + r.Intn(900)}
 		if k == "execute" || k == "handler" {
 			f.Callee.Form = r.Pick([]string{"", "", "flags:help", "flags:required", "flags:unknown", "wrap:help", "wrap:marshal", "flags:command required", "flags:help-empty", "typed-nil", "errtype:help", "errtype:required", "typed-nil-flags"})
+		}
+		if k == "validate" {
+			f.Callee.Form = r.Pick([]string{"", "", "typed-nil", "typed-nil-flags", "flags:unknown"})
 		}
 		if k == "callback" || k == "unmarshal" {
 			// what a failing option callback / UnmarshalFlag may hand back
